@@ -41,8 +41,8 @@ CHECKS = {
 }
 
 LEVEL_DOC = {
-    "C01": "DESIGN.md 2 (C01)", "C02": "DESIGN.md 2 (C02)", "C03": "DESIGN.md 2 (C03)", "C04": "DESIGN.md 2 (C04)",
-    "C05": "DESIGN.md 2 (C05)", "C06": "DESIGN.md 2 (C06)", "C07": "DESIGN.md 2 (C07)", "C08": "DESIGN.md 2 (C08)", "C09": "DESIGN.md 2 (C09)",
+    "C01": "DESIGN.md 2 (C01) and 9.2", "C02": "DESIGN.md 2 (C02) and 9.2", "C03": "DESIGN.md 2 (C03) and 9.2", "C04": "DESIGN.md 2 (C04) and 9.2",
+    "C05": "DESIGN.md 2 (C05) and 9.2", "C06": "DESIGN.md 2 (C06) and 9.2", "C07": "DESIGN.md 2 (C07) and 9.2", "C08": "DESIGN.md 2 (C08) and 9.2", "C09": "DESIGN.md 2 (C09) and 9.2",
 }
 
 NOT_YET = {}
@@ -67,7 +67,7 @@ def main():
                 "evidence_file": f"evidence/{pid}.json",
                 "replay_cmd_template": f"bin/check {pid} --replay {{path}}",
                 "engine": eng,
-                "level_claimed": {"category": cat, "text": text, "design_ref": LEVEL_DOC.get(pid, f"DESIGN.md 2 ({pid})")},
+                "level_claimed": {"category": cat, "text": text, "design_ref": LEVEL_DOC.get(pid, f"DESIGN.md 2 ({pid}) and 9.2")},
                 "level_note": note,
                 "technique": tech,
             }
